@@ -260,9 +260,10 @@ SetRef(op) ==
        IF n \in DOMAIN M.cm[s] \/ n \in {Last(t) : t \in {u \in M.sp : Len(u) = Len(s) + 1 /\ SubSeq(u, 1, Len(s)) = s}}
        THEN Done(op, "rejected", M)
        ELSE IF isnew /\ \E i \in 1..Len(q) :
-                    n \in NamespaceOf(M, q[i]) /\ ~(n \in DOMAIN M.grefs /\ n \notin DOMAIN M.rm[q[i]]
-                                                     /\ n \notin DOMAIN M.cm[q[i]])
-       THEN Done(op, "rejected", M)       \* a sub already uses the name (new_ref refuses)
+                    \/ n \in DOMAIN M.cm[q[i]]
+                    \/ n \in {Last(t) : t \in {u \in M.sp : Len(u) = Len(q[i]) + 1
+                                                           /\ SubSeq(u, 1, Len(q[i])) = q[i]}}
+       THEN Done(op, "rejected", M)       \* a sub space uses the name for a cells or a space
        ELSE IF relbad THEN Done(op, "rejected", M)
        ELSE LET M1 == [M EXCEPT !.rm[s] = Upd(@, n, [v |-> op.v, dv |-> op.v, mode |-> op.mode, derived |-> FALSE])]
             IN Done(op, "ok", Kill(InheritSeq(M1, q, "r")))
